@@ -1,4 +1,7 @@
+#[cfg(not(sylt_verif))]
 use std::collections::HashMap;
+#[cfg(sylt_verif)]
+use sylt_common::verif_hash::HashMap;
 use sylt_common::error::{Error, Helper, TypeError};
 use sylt_common::{FileOrLib, TyID, Type as RuntimeType};
 use sylt_parser::{Span, TypeConstraint, VarKind};
